@@ -2,11 +2,14 @@ use std::ops::{Deref, DerefMut};
 
 use celestia_proto::celestia::core::v1::proof::NmtProof as RawNmtProof;
 use celestia_proto::proof::pb::Proof as RawProof;
+use nmt_rs::simple_merkle::error::RangeProofError;
 use nmt_rs::simple_merkle::proof::Proof as NmtProof;
 use serde::{Deserialize, Serialize};
 use tendermint_proto::Protobuf;
 
 use crate::nmt::{NS_SIZE, NamespacedHash, NamespacedHashExt, NamespacedSha2Hasher};
+
+type NamespaceId = nmt_rs::NamespaceId<NS_SIZE>;
 use crate::{Error, Result};
 
 type NmtNamespaceProof = nmt_rs::nmt_proof::NamespaceProof<NamespacedSha2Hasher, NS_SIZE>;
@@ -110,6 +113,86 @@ impl NamespaceProof {
         } else {
             None
         }
+    }
+}
+
+impl NamespaceProof {
+    /// Verify that the provided *raw* leaves are a complete namespace.
+    ///
+    /// Same as the [`nmt_rs`] method of that name, except that a proof whose nodes
+    /// are not ordered by namespace is rejected with an error instead of a panic.
+    pub fn verify_complete_namespace(
+        &self,
+        root: &NamespacedHash,
+        raw_leaves: &[impl AsRef<[u8]>],
+        namespace: NamespaceId,
+    ) -> Result<(), RangeProofError> {
+        match self.leaf() {
+            Some(leaf) => self.check_nodes_order(leaf.min_namespace(), leaf.max_namespace())?,
+            None if self.is_of_presence() => self.check_nodes_order(namespace, namespace)?,
+            // absence proof without a leaf isn't hashed at all
+            None => {}
+        }
+        self.0.verify_complete_namespace(root, raw_leaves, namespace)
+    }
+
+    /// Verify that the provided *raw* leaves are present and form a contiguous
+    /// subset of some namespace.
+    ///
+    /// Same as the [`nmt_rs`] method of that name, except that a proof whose nodes
+    /// are not ordered by namespace is rejected with an error instead of a panic.
+    pub fn verify_range(
+        &self,
+        root: &NamespacedHash,
+        raw_leaves: &[impl AsRef<[u8]>],
+        leaf_namespace: NamespaceId,
+    ) -> Result<(), RangeProofError> {
+        self.check_nodes_order(leaf_namespace, leaf_namespace)?;
+        self.0.verify_range(root, raw_leaves, leaf_namespace)
+    }
+
+    /// Check that the namespace ranges of the siblings and of the proven leaves are ordered.
+    ///
+    /// When recomputing the root, [`nmt_rs`] hashes together only nodes that are next to each
+    /// other in the sequence `left siblings, leaves, right siblings`, and it panics if the left
+    /// one has a greater namespace than the right one. Proofs come from untrusted peers, so
+    /// such proof has to be rejected before it gets there.
+    fn check_nodes_order(
+        &self,
+        leaves_min_ns: NamespaceId,
+        leaves_max_ns: NamespaceId,
+    ) -> Result<(), RangeProofError> {
+        let siblings = self.siblings();
+        let num_left_siblings = self.start_idx().count_ones() as usize;
+
+        if num_left_siblings > siblings.len() {
+            // not enough nodes, nmt_rs will report that
+            return Ok(());
+        }
+
+        let (left, right) = siblings.split_at(num_left_siblings);
+        let ranges = left
+            .iter()
+            .map(|hash| (hash.min_namespace(), hash.max_namespace()))
+            .chain([(leaves_min_ns, leaves_max_ns)])
+            .chain(
+                right
+                    .iter()
+                    .map(|hash| (hash.min_namespace(), hash.max_namespace())),
+            );
+
+        let mut prev_max_ns = None;
+
+        for (min_ns, max_ns) in ranges {
+            if min_ns > max_ns || prev_max_ns.is_some_and(|prev| prev > min_ns) {
+                return Err(RangeProofError::MalformedProof(
+                    "proof nodes must be ordered by namespace",
+                ));
+            }
+            prev_max_ns = Some(max_ns);
+        }
+
+        Ok(())
     }
 }
 
